@@ -343,10 +343,14 @@ def run(ctx: F.Ctx):
     depth = depths
     for s in inits:
         rep.merge(B.search(ctx, [s], EVENTS, step, depths[s.extra["init"]], max_states=60000))
+    # one long-lived `zorg edit` process that stamps on several occasions, also across midnight
+    from mc.checks import sessions
+
+    rep.merge(F.explore(ctx, sessions.cases(ctx), lambda c: _run_session(ctx, c), sample=sessions.sample, day=day))
     rep.samples = rep.samples[:4]
     meta = {
         "rule": (
-            "BFS from 5 initial states (a directory indexed on day 0; the same after a note was edited and stamped the same day; the same one day later; the first again on a machine at UTC+2 at 00:30 and at UTC-8 at 19:30, where the local calendar day is not the UTC calendar day, to a smaller depth) -- the directory holds (a page holding a plain note, a todo with "
+            "BFS from 5 initial states (a directory indexed on day 0; the same after a note was edited and stamped the same day; the same one day later; the first again on a machine at UTC+2 at 00:30 and at UTC-8 at 19:30, where the local calendar day is not the UTC calendar day, to a smaller depth; plus scripted sessions of ONE long-lived `zorg edit` process that reindexes and stamps several times, with midnight passing while the editor is open, after which index and files must agree) -- the directory holds (a page holding a plain note, a todo with "
             "priority, a multi-line note with a bullet, a note stamped on an earlier day, a note "
             "created today, each next to an untouched neighbour, plus a note in a section and an "
             "untouched second page) over 13 events: edit the body of each of 5 notes (twice each), "
@@ -366,7 +370,18 @@ def run(ctx: F.Ctx):
     return rep, meta
 
 
+def _run_session(ctx, case) -> F.Outcome:
+    from mc.checks import sessions
+
+    try:
+        return sessions.run_case(ctx, case, {"index-vs-files", "zids"})
+    finally:
+        H.freeze(H.rotate(_DAYS, ctx.seed)[0])
+
+
 def replay(case, ctx: F.Ctx) -> F.Outcome:
+    if isinstance(case, list) and case and case[0] == "session":
+        return _run_session(ctx, case)
     day = H.rotate(_DAYS, ctx.seed)[0]
     H.freeze(day)
     inits = make_inits(day)
